@@ -76,7 +76,7 @@ pub fn run(args: &Args) {
         let mut ops = vec![];
         let mut outs = vec![];
         for _ in 0..steps {
-            now += *r.pick(&[0i64, 0, 1, 1, 500, 29_999, 30_000, 30_001, 86_400_000, 999]);
+            now += *r.pick(&[0i64, 0, 1, 1, 500, 29_999, 30_000, 30_001, 86_400_000, 999, -1, -1000]);    // the clock may step back
             verif_hooks::set_clock(Some(now));
             let mut hi = r.below(handles.len());
             let (mut reg, mut name) = keys[r.below(keys.len())].clone();
